@@ -1,23 +1,34 @@
 """C13 — axis-aligned boxes behave as half-open point sets."""
 import itertools
 
+import os
+
+from vlib import paths
 from vlib.runner import Batch
 
 ID = "C13"
 LEAN_PROPS = ["FcpptProofs.Props.C13"]
-HARNESS = {"src": "harness/c13.cpp"}
+# one translation unit per coordinate type (compiled in parallel); absolute paths because vlib/harness.py joins
+# `repo_srcs` onto the fcppt tree (os.path.join keeps an absolute second argument)
+HARNESS = {"src": "harness/c13.cpp",
+           "repo_srcs": [os.path.join(paths.HARNESS, f"c13_{t}.cpp") for t in "iulm"]}
 TIE = ("hand-written model (FcpptModel/Model/C13.lean) mirroring the box headers index by index + differential "
-       "correspondence against the real templates for int and unsigned, N = 1, 2, 3")
+       "correspondence against the real templates for int, unsigned, long, unsigned long and N = 0 … 4")
 RULE = ("pairs T n A lo hi clo chi: digest over every box B with both corners in [clo,chi]^n of the pair observations "
         "(intersects, contains both ways, intersection, extend_bounding_box, == != <, distance both ways, and for every lattice "
         "point of [lo,hi]^n its membership in A, B, the intersection and the bounding box). thorough: every A with corners in "
         "[-3,3] (int) / [0,6] (unsigned) for n = 1 and n = 2 = all pairs of boxes x all lattice points; quick: all pairs for n = 1, "
         "all pairs with corners in [-2,2] / [0,4] and a seeded sample of A against all B for n = 2. unary: every box, digest over all "
         "shrink/stretch vectors and extend-by-point of the lattice. 3-D and large/extreme coordinates are seeded random. "
+        "progs T n A B V k: digest over all 30^k statement sequences of length k on the objects A, B, V (assignments through the mutable "
+        "pos()/max(), aliasing, copies, swaps, A = f(A, ...)); exhaustive for k <= 2 over all 1-D states with corners in [-1,1] / [0,2]. "
+        "cmp: the comparison-only functions on all quadruples of values at the ends of each type's range. foldp/foldb: accumulation loops. "
         "An op counts as non-trivial when its first box is non-empty; distinct = distinct op lines.")
 ASSUMPTIONS = [
-    "coordinate type T has rank >= int (int, unsigned): no integral promotion; int = 32-bit two's complement, unsigned = 32 bit",
-    "signed overflow is undefined behaviour (model: fault), unsigned arithmetic wraps modulo 2^32",
+    "coordinate type T has rank >= int (int, unsigned, long, unsigned long): no integral promotion (box<short> does not compile: "
+    "vector<short> + vector<short> is a vector<int>); int = 32-bit two's complement, long = 64 bit (static_assert in the harness)",
+    "signed overflow is undefined behaviour (model: fault), unsigned arithmetic wraps modulo 2^bits; integer conversions "
+    "(structure_cast through static_cast) are modular (C++20)",
     "std::min/std::max/std::swap/std::lexicographical_compare/std::pair operator< by their standard specifications",
     "vector::static_<T,N>/dim::static_<T,N> = Vector Int n; at<I>, init, binary_map, map are index-wise",
 ]
@@ -25,12 +36,16 @@ TRUSTED = ["harness/c13.cpp and the digest/line protocol (vh.hpp, Proto.lean)",
            "g++ 12 + ASan/UBSan as witness for memory safety / absence of UB of the instantiations on the exercised inputs"]
 
 # corner range and lattice per coordinate type
-RANGE = {"i": (-3, 3, -4, 4), "u": (0, 6, 0, 7)}
-QRANGE = {"i": (-2, 2, -4, 4), "u": (0, 4, 0, 7)}
+RANGE = {"i": (-3, 3, -4, 4), "u": (0, 6, 0, 7), "l": (-3, 3, -4, 4), "m": (0, 6, 0, 7)}
+QRANGE = {"i": (-2, 2, -4, 4), "u": (0, 4, 0, 7), "l": (-2, 2, -4, 4), "m": (0, 4, 0, 7)}
+SIGNED = {"i": True, "u": False, "l": True, "m": False}
+BITS = {"i": 32, "u": 32, "l": 64, "m": 64}
+INSTRS = ["pv", "mv", "pm", "mp", "pb", "mb", "pbm", "sw", "ss", "sc", "cp", "sa", "mo", "sm",
+          "xi", "xb", "xv", "xm", "sh", "st", "shp", "stm", "ni", "ps", "ce", "px", "vp", "vm", "xa", "xe"]
 
 
 def vs(v):
-    return ",".join(str(x) for x in v)
+    return ",".join(str(x) for x in v) if len(v) else "-"
 
 
 def cube(lo, hi, n):
@@ -42,7 +57,7 @@ def nonempty(mn, mx):
 
 
 def parse(s):
-    return [int(x) for x in s.split(",")]
+    return [] if s == "-" else [int(x) for x in s.split(",")]
 
 
 def nontrivial(op, result):
@@ -58,6 +73,8 @@ def weight(op):
         n = int(t[2])
         k = int(t[8]) - int(t[7]) + 1
         return (k ** n) ** 2
+    if t[0] == "progs":
+        return len(INSTRS) ** int(t[8])
     return 1
 
 
@@ -74,11 +91,36 @@ def refine(op):
     if t[0] == "unary":
         T, n, lo, hi = t[1], int(t[2]), int(t[5]), int(t[6])
         pts = cube(lo, hi, n)
-        return [f"shr {T} {n} {t[3]} {t[4]} {vs(p)}" for p in pts] + [f"extp {T} {n} {t[3]} {t[4]} {vs(p)}" for p in pts]
+        flo, fhi = (-2, 2) if SIGNED[T] else (0, 3)
+        return ([f"shr {T} {n} {t[3]} {t[4]} {vs(p)}" for p in pts] + [f"extp {T} {n} {t[3]} {t[4]} {vs(p)}" for p in pts]
+                + [f"strel {T} {n} {t[3]} {t[4]} {vs(f)}" for f in cube(flo, fhi, n)])
+    if t[0] == "progs":
+        k = int(t[8])
+        return [" ".join(["prog"] + t[1:8] + [",".join(pr) if pr else "-"]) for pr in itertools.product(INSTRS, repeat=k)]
+    if t[0] == "prog" and t[8] != "-" and "," in t[8]:
+        # the proper prefixes: the shortest differing one ends with the statement at fault
+        pr = t[8].split(",")
+        return [" ".join(t[:8] + [",".join(pr[:k])]) for k in range(1, len(pr))]
     return None
 
 
-BASES = {"i": [0, 0, 0, 1000, -1000, 1 << 29, -(1 << 29)], "u": [0, 0, 0, 1000, 1 << 31, (1 << 32) - 8]}
+BASES = {"i": [0, 0, 0, 1000, -1000, 1 << 29, -(1 << 29)], "u": [0, 0, 0, 1000, 1 << 31, (1 << 32) - 8],
+         "l": [0, 0, 0, 1000, -1000, 1 << 61, -(1 << 61), 1 << 31, (1 << 32) - 3],
+         "m": [0, 0, 0, 1000, 1 << 63, (1 << 64) - 8, (1 << 32) - 3]}
+# values at the ends of each type's range (64-bit types: also around 2^31 / 2^32, where a stray `int` would truncate)
+EXT = {"i": [-(1 << 31), -(1 << 31) + 1, -1, 0, 1, (1 << 31) - 2, (1 << 31) - 1],
+       "u": [0, 1, 2, (1 << 31) - 1, 1 << 31, (1 << 32) - 2, (1 << 32) - 1],
+       "l": [-(1 << 63), -(1 << 63) + 1, -(1 << 32), -(1 << 31) - 1, -1, 0, 1, (1 << 31), (1 << 32) + 1, (1 << 63) - 2, (1 << 63) - 1],
+       "m": [0, 1, 2, (1 << 31), (1 << 32) - 1, (1 << 32), (1 << 63) - 1, 1 << 63, (1 << 64) - 2, (1 << 64) - 1]}
+# values of very different magnitude whose sums / differences of up to four terms are still representable in the signed
+# types (unsigned: around the wrap points): large sizes, differences beyond 2^31 in the 64-bit types
+MID = {"i": [-(1 << 28), -(1 << 16) - 1, -1, 0, 1, (1 << 16) + 1, 1 << 28],
+       "u": [0, 1, (1 << 16) + 1, 1 << 28, 1 << 31, (1 << 32) - (1 << 28), (1 << 32) - 1],
+       "l": [-(1 << 60), -(1 << 32) - 1, -(1 << 31), -1, 0, 1, 1 << 31, (1 << 32) + 1, 1 << 60],
+       "m": [0, 1, 1 << 31, (1 << 32) + 1, 1 << 60, 1 << 63, (1 << 64) - (1 << 60), (1 << 64) - 1]}
+TYPES = ["i", "u", "l", "m"]
+# corner range / vector range of the statement-sequence batches
+PRANGE = {"i": (-1, 1), "u": (0, 2), "l": (-1, 1), "m": (0, 2)}
 
 
 def rand_box(r, n, lo, hi, base):
@@ -96,68 +138,242 @@ def rand_box(r, n, lo, hi, base):
     return mn, mx
 
 
+def all_states(T, n):
+    lo, hi = PRANGE[T]
+    cs = cube(lo, hi, n)
+    return [(a0, a1, b0, b1, v) for a0 in cs for a1 in cs for b0 in cs for b1 in cs for v in cs]
+
+
+def rand_state(r, T, n):
+    lo, hi = PRANGE[T]
+    a = rand_box(r, n, lo, hi, 0)
+    b = rand_box(r, n, lo, hi, 0)
+    return (a[0], a[1], b[0], b[1], [r.range(lo, hi) for _ in range(n)])
+
+
+def progs_op(T, n, st, k):
+    return f"progs {T} {n} {vs(st[0])} {vs(st[1])} {vs(st[2])} {vs(st[3])} {vs(st[4])} {k}"
+
+
 def batches(rng, tier):
+    """The per-type batches of one family are cheap; they are run as one batch (fewer process starts)."""
+    import re
+    merged, order = {}, []
+    for b in _batches(rng, tier):
+        heavy = re.match(r"pairs-[iulm][23]", b.name)
+        key = b.name if heavy else re.sub(r"-[iulm](\d*)(?=-|$)", r"-T\1", b.name, count=1)
+        if key not in merged:
+            merged[key] = Batch(key, [], exhaustive=True, note=b.note)
+            order.append(key)
+        m = merged[key]
+        m.ops += b.ops
+        m.exhaustive = m.exhaustive and b.exhaustive
+    for key in order:
+        yield merged[key]
+
+
+def _batches(rng, tier):
     thorough = tier == "thorough"
     # ---- idist: all quadruples
     for T, (clo, chi, lo, hi) in RANGE.items():
         ops = [f"idist {T} {a} {b} {c} {d}" for a in range(clo, chi + 1) for b in range(clo, chi + 1)
                for c in range(clo, chi + 1) for d in range(clo, chi + 1)]
         yield Batch(f"idist-{T}", ops, exhaustive=True, note="interval_distance on all quadruples of the corner range")
-    # ---- unary: every box, n = 1, 2
-    for T, (clo, chi, lo, hi) in RANGE.items():
+    # ---- unary: every box, n = 0, 1, 2 (64-bit types in quick: 2-D corners from the inner range)
+    for T in TYPES:
+        yield Batch(f"unary-{T}0", [f"unary {T} 0 - - 0 1"], exhaustive=True, note="the only 0-dimensional box (everything but corner_points compiles for N = 0)")
         for n in (1, 2):
+            clo, chi, lo, hi = RANGE[T] if (thorough or n == 1 or T in "iu") else QRANGE[T]
             cs = cube(clo, chi, n)
             ops = [f"unary {T} {n} {vs(a)} {vs(b)} {lo} {hi}" for a in cs for b in cs]
             yield Batch(f"unary-{T}{n}", ops, exhaustive=True,
-                        note="every box: size/pos/max/sides/corner_points/center/null/constructors/init_max/init_dim; all shrink/stretch vectors and extend-by-point over the lattice")
-    # ---- pairs, n = 1: all pairs
-    for T, (clo, chi, lo, hi) in RANGE.items():
+                        note="every box: size/pos/max/sides/corner_points/center/null/constructors/init_max/init_dim/interval/operator<</aliased arguments/"
+                             "structure_cast; all shrink/stretch vectors and extend-by-point over the lattice; stretch_relative over the factor lattice")
+    # ---- pairs, n = 0 and n = 1: all pairs
+    for T in TYPES:
+        clo, chi, lo, hi = RANGE[T]
+        yield Batch(f"pairs-{T}0", [f"pairs {T} 0 - - {lo} {hi} {clo} {chi}", f"pair {T} 0 - - - - {lo} {hi}", f"cmp {T} 0 - - - -"],
+                    exhaustive=True, note="the only pair of 0-dimensional boxes")
         cs = cube(clo, chi, 1)
         ops = [f"pairs {T} 1 {vs(a)} {vs(b)} {lo} {hi} {clo} {chi}" for a in cs for b in cs]
         yield Batch(f"pairs-{T}1", ops, exhaustive=True, note="all pairs of 1-D boxes x all lattice points")
     # ---- pairs, n = 2
-    for T in ("i", "u"):
+    for T in TYPES:
         clo, chi, lo, hi = RANGE[T]
         if thorough:
             cs = cube(clo, chi, 2)
             ops = [f"pairs {T} 2 {vs(a)} {vs(b)} {lo} {hi} {clo} {chi}" for a in cs for b in cs]
             yield Batch(f"pairs-{T}2", ops, exhaustive=True, note="all pairs of 2-D boxes with corners in the full range x all lattice points")
-        else:
+        elif T in "iu":
             qlo, qhi, _, _ = QRANGE[T]
             cs = cube(qlo, qhi, 2)
             ops = [f"pairs {T} 2 {vs(a)} {vs(b)} {lo} {hi} {qlo} {qhi}" for a in cs for b in cs]
             yield Batch(f"pairs-{T}2-inner", ops, exhaustive=True, note=f"all pairs of 2-D boxes with corners in [{qlo},{qhi}] x all lattice points")
+        if not thorough:
             r = rng.fork("pairs2" + T)
             cs = cube(clo, chi, 2)
             ops = []
-            for _ in range(300):
+            for _ in range(300 if T in "iu" else 30):
                 a, b = r.choice(cs), r.choice(cs)
                 if r.chance(1, 2):
                     b = tuple(min(chi, x + r.range(1, 3)) for x in a)
                 ops.append(f"pairs {T} 2 {vs(a)} {vs(b)} {lo} {hi} {clo} {chi}")
             yield Batch(f"pairs-{T}2-sampledA", ops, note="seeded sample of boxes A (half of them non-empty) against every box B of the full range")
     # ---- pairs, n = 3: small corner range, all pairs (thorough) / sampled A (quick)
-    for T, (clo, chi, lo, hi) in {"i": (-1, 1, -2, 2), "u": (0, 2, 0, 3)}.items():
+    for T in TYPES:
+        clo, chi, lo, hi = (-1, 1, -2, 2) if SIGNED[T] else (0, 2, 0, 3)
         cs = cube(clo, chi, 3)
         if thorough:
             ops = [f"pairs {T} 3 {vs(a)} {vs(b)} {lo} {hi} {clo} {chi}" for a in cs for b in cs]
             yield Batch(f"pairs-{T}3-small", ops, exhaustive=True, note=f"all pairs of 3-D boxes with corners in [{clo},{chi}] x all lattice points of [{lo},{hi}]^3")
         else:
             r = rng.fork("pairs3" + T)
-            ops = [f"pairs {T} 3 {vs(r.choice(cs))} {vs(r.choice(cs))} {lo} {hi} {clo} {chi}" for _ in range(60)]
+            cnt = 60 if T in "iu" else 12
+            ops = [f"pairs {T} 3 {vs(r.choice(cs))} {vs(r.choice(cs))} {lo} {hi} {clo} {chi}" for _ in range(cnt)]
             yield Batch(f"pairs-{T}3-small-sampledA", ops, note=f"seeded 3-D boxes A against every 3-D box B with corners in [{clo},{chi}]")
-    # ---- 3-D and large coordinates: seeded random
+    # ---- pairs and unary, n = 4: corners in {0,1} (B: all 256 boxes), A sampled
+    for T in TYPES:
+        clo, chi, lo, hi = (0, 1, -1, 2) if SIGNED[T] else (1, 2, 0, 3)
+        cs = cube(clo, chi, 4)
+        r = rng.fork("pairs4" + T)
+        cnt = (10 if T in "iu" else 4) * (6 if thorough else 1)
+        ops = [f"pairs {T} 4 {vs(r.choice(cs))} {vs(r.choice(cs))} {lo} {hi} {clo} {chi}" for _ in range(cnt)]
+        ops += [f"unary {T} 4 {vs(r.choice(cs))} {vs(r.choice(cs))} {clo - 1} {chi}" for _ in range(cnt * 4)]
+        yield Batch(f"pairs-unary-{T}4-sampledA", ops, note="seeded 4-D boxes A against every 4-D box B with corners in a 2-value range; 4-D unary observations (16 corner points)")
+    # ---- comparison-only functions at the ends of the type's range: all quadruples in 1-D, seeded in 2-D / 3-D
+    for T in TYPES:
+        ev = EXT[T]
+        ops = [f"cmp {T} 1 {a} {b} {c} {d}" for a in ev for b in ev for c in ev for d in ev]
+        ops += [f"extp {T} 1 {a} {b} {c}" for a in ev for b in ev for c in ev]
+        if not SIGNED[T]:
+            # arithmetic wraps: every function can be observed there
+            ops += [f"shr {T} 1 {a} {b} {c}" for a in ev for b in ev for c in ev]
+            ops += [f"strel {T} 1 {a} {b} {c}" for a in ev for b in ev for c in ev]
+            ops += [f"unary {T} 1 {a} {b} {c} {c + 1}" for a in ev for b in ev for c in (0, ev[-1] - 1)]
+            ops += [f"pair {T} 1 {a} {b} {c} {d} 0 1" for a in ev for b in ev for c in ev for d in ev]
+        yield Batch(f"cmp-extreme-{T}1", ops, exhaustive=True,
+                    note="intersects / contains (both ways) / intersection / extend_bounding_box / interval for every pair of 1-D boxes with corners at the "
+                         "ends of the type's range; contains_point / extend-by-point for every box and point there; unsigned types: also shrink / stretch / "
+                         "stretch_relative / unary / pair (wrap-around)")
+        r = rng.fork("cmpx" + T)
+        ops = []
+        for _ in range(4000 if thorough else 600):
+            n = r.choice([2, 2, 3, 4])
+            pick = lambda: [r.choice(ev) for _ in range(n)]
+            ops.append(f"cmp {T} {n} {vs(pick())} {vs(pick())} {vs(pick())} {vs(pick())}")
+        yield Batch(f"cmp-extreme-{T}234", ops, note="the same in 2, 3, 4 dimensions, seeded")
+    # ---- one axis at a time in 2, 3, 4 dimensions: axis k runs over ALL pairs of 1-D intervals of the corner range while the other
+    #      axes are held at a configuration in which every per-axis test passes (equal / nested / overlapping intervals), so
+    #      the result of every all_of-style function is decided by axis k alone (an error confined to one index shows)
+    for T in TYPES:
+        clo, chi, _, _ = RANGE[T]
+        o = 0 if SIGNED[T] else 1
+        backgrounds = [((1 + o, 3 + o), (1 + o, 3 + o)), ((0 + o, 3 + o), (1 + o, 2 + o)), ((0 + o, 2 + o), (1 + o, 3 + o))]
+        rng1 = range(clo, chi + 1)
+        for n in (2, 3, 4):
+            ops = []
+            for k in range(n):
+                for (a0, a1), (b0, b1) in backgrounds:
+                    for x0 in rng1:
+                        for x1 in rng1:
+                            for y0 in rng1:
+                                for y1 in rng1:
+                                    amin = [x0 if j == k else a0 for j in range(n)]
+                                    amax = [x1 if j == k else a1 for j in range(n)]
+                                    bmin = [y0 if j == k else b0 for j in range(n)]
+                                    bmax = [y1 if j == k else b1 for j in range(n)]
+                                    ops.append(f"pair {T} {n} {vs(amin)} {vs(amax)} {vs(bmin)} {vs(bmax)} {1 + o} {2 + o}")
+            yield Batch(f"axis-{T}{n}", ops, exhaustive=True,
+                        note="every axis k: all pairs of 1-D intervals on axis k x three passing configurations on the other axes")
+    # ---- mixed magnitudes: interval_distance on all quadruples; seeded pair / unary / shr / strel / single statements
+    for T in TYPES:
+        mv = MID[T]
+        ops = [f"idist {T} {a} {b} {c} {d}" for a in mv for b in mv for c in mv for d in mv]
+        yield Batch(f"idist-mid-{T}", ops, exhaustive=True, note="interval_distance on all quadruples of values of very different magnitude (differences beyond 2^31 / near 2^bits)")
+        r = rng.fork("mid" + T)
+        ops = []
+        for _ in range(3000 if thorough else 400):
+            n = r.choice([1, 1, 2, 2, 3])
+            pick = lambda: [r.choice(mv) for _ in range(n)]
+            c = r.choice(mv)
+            lo, hi = max(c - 1, mv[0]), min(c + 1, mv[-1])
+            k = r.below(10)
+            if k < 4:
+                ops.append(f"pair {T} {n} {vs(pick())} {vs(pick())} {vs(pick())} {vs(pick())} {lo} {hi}")
+            elif k < 7:
+                ops.append(f"unary {T} {n} {vs(pick())} {vs(pick())} {lo} {hi}")
+            elif k < 8:
+                ops.append(f"shr {T} {n} {vs(pick())} {vs(pick())} {vs(pick())}")
+            elif k < 9:
+                f = [r.range(-2, 2) if SIGNED[T] else r.choice([0, 1, 2, 3, mv[-1]]) for _ in range(n)]
+                ops.append(f"strel {T} {n} {vs(pick())} {vs(pick())} {vs(f)}")
+            else:
+                ops.append(progs_op(T, n, (pick(), pick(), pick(), pick(), pick()), 1 if SIGNED[T] else 2))
+        yield Batch(f"mid-{T}", ops, note="seeded boxes with corners of very different magnitude (large sizes): pair, unary, shrink/stretch, stretch_relative, "
+                    "every single statement (unsigned: every sequence of two)")
+    # ---- statement sequences on the objects A, B, V
+    for T in TYPES:
+        full = thorough or T in "iu"
+        r = rng.fork("prog" + T)
+        ops = [progs_op(T, 0, ([], [], [], [], []), k) for k in (0, 1, 2, 3)]
+        sts = all_states(T, 1)
+        if not full:
+            sts = [r.choice(sts) for _ in range(30)]
+        ops += [progs_op(T, 1, st, k) for st in sts for k in ((0, 1, 2) if full else (2,))]
+        yield Batch(f"progs-{T}01", ops, exhaustive=full,
+                    note="all statement sequences of length <= 2 (30 statements: assignment through the mutable pos()/max(), aliasing within the "
+                         "object, copy/move/swap incl. self, A = f(A, ...), no_init, (pos,size) constructor) from every 1-D state "
+                         "(A, B, V with coordinates in [-1,1] / [0,2])" + ("" if full else " - seeded sample of the states"))
+        ops = []
+        for n, cnt in ((2, 40 if T in "iu" else 10), (3, 10), (4, 6)):
+            for _ in range(cnt * (30 if thorough else 1)):
+                ops.append(progs_op(T, n, rand_state(r, T, n), 2))
+        if thorough:
+            sts = all_states(T, 1)
+            ops += [progs_op(T, 1, r.choice(sts), 3) for _ in range(80)]
+            ops += [progs_op(T, 2, rand_state(r, T, 2), 3) for _ in range(30)]
+            ops += [progs_op(T, 3, rand_state(r, T, 3), 3) for _ in range(10)]
+        yield Batch(f"progs-{T}234", ops, note="all statement sequences of length 2 (thorough: also 3) from seeded 2-D, 3-D, 4-D states")
+    # ---- accumulation loops: b = extend_bounding_box(b, p_j); a = extend_bounding_box(a, b_j); a = intersection(a, b_j)
+    for T in TYPES:
+        clo, chi = (-2, 2) if SIGNED[T] else (0, 4)
+        r = rng.fork("fold" + T)
+        if thorough or T in "iu":
+            pts = [str(x) for x in range(clo, chi + 1)]
+            ops = [f"foldp {T} 1 {a} {b}" + "".join(" " + q for q in ps) for a in pts for b in pts
+                   for k in (0, 1, 2, 3) for ps in itertools.product(pts, repeat=k)]
+            bl, bh = PRANGE[T]
+            boxes = [f"{a} {b}" for a in range(bl, bh + 1) for b in range(bl, bh + 1)]
+            ops += [f"foldb {T} 1 " + " ".join(bs) for k in (1, 2, 3, 4) for bs in itertools.product(boxes, repeat=k)]
+            yield Batch(f"fold-{T}1", ops, exhaustive=True,
+                        note="extend-by-point loops over all point lists of length <= 3 from every 1-D box with corners in [-2,2] / [0,4]; "
+                             "extend / intersection loops over all lists of <= 4 boxes with corners in [-1,1] / [0,2]")
+        ops = []
+        for _ in range(2000 if thorough else 300):
+            n = r.choice([1, 2, 2, 3, 4, 0]) if T in "lm" else r.choice([2, 2, 3, 4, 0])
+            base = r.choice(BASES[T])
+            a = rand_box(r, n, clo, chi, base)
+            if r.chance(1, 2):
+                ps = [[base + r.range(clo - 1, chi + 1) for _ in range(n)] for _ in range(r.range(0, 5))]
+                ops.append(f"foldp {T} {n} {vs(a[0])} {vs(a[1])}" + "".join(" " + vs(q) for q in ps))
+            else:
+                bs = [rand_box(r, n, clo, chi, base) for _ in range(r.range(0, 4))]
+                ops.append(f"foldb {T} {n} {vs(a[0])} {vs(a[1])}" + "".join(f" {vs(x)} {vs(y)}" for x, y in bs))
+        yield Batch(f"fold-{T}-seeded", ops, note="seeded accumulation loops in 0 … 4 dimensions, also at base offsets")
+    # ---- 3-D, other dimensions and large coordinates: seeded random
     r = rng.fork("rand")
     cnt = 20000 if thorough else 4000
     ops = []
     for _ in range(cnt):
-        T = r.choice(["i", "u"])
-        n = 3 if r.chance(2, 3) else r.choice([1, 2])
+        T = r.choice(["i", "u", "i", "u", "l", "m"])
+        n = r.choice([3, 3, 3, 3, 3, 3, 3, 3, 3, 3, 1, 2, 1, 2, 2, 4, 4, 4, 4, 0])
         clo, chi, lo, hi = RANGE[T]
+        if n == 4:
+            lo, hi = (-1, 1) if SIGNED[T] else (0, 2)
         base = r.choice(BASES[T])
         if r.chance(1, 6):
             base = 0
-            clo_, chi_ = (-53, 53) if T == "i" else (0, 100)
+            clo_, chi_ = (-53, 53) if SIGNED[T] else (0, 100)
             lat_lo = r.range(clo_, chi_ - 2)
             lat_hi = lat_lo + 2
         else:
@@ -170,47 +386,57 @@ def batches(rng, tier):
             ops.append(f"pair {T} {n} {vs(a[0])} {vs(a[1])} {vs(b[0])} {vs(b[1])} {lat_lo} {lat_hi}")
         else:
             ops.append(f"unary {T} {n} {vs(a[0])} {vs(a[1])} {lat_lo} {lat_hi}")
-    yield Batch("random-3d-and-offsets", ops, note="2/3 three-dimensional; corners from a 7-value range around base offsets "
-                "{0, +-1000, +-2^29} (int) / {0, 1000, 2^31, 2^32-8} (unsigned), 1/6 from a 100-wide range; 60% pair, 40% unary")
-    # ---- extreme coordinates: only the comparison-based functions (no arithmetic on int)
+    yield Batch("random-3d-and-offsets", ops, note="half three-dimensional, rest 0/1/2/4-D; int, unsigned (2/3), long, unsigned long (1/3); corners from a 7-value "
+                "range around base offsets {0, +-1000, +-2^29} (int) / {0, 1000, 2^31, 2^32-8} (unsigned) / {0, +-1000, +-2^61, 2^31, 2^32-3} (long) / "
+                "{0, 1000, 2^63, 2^64-8, 2^32-3} (unsigned long), 1/6 from a 100-wide range; 60% pair, 40% unary")
+    # ---- extreme coordinates: only the comparison-based functions (no arithmetic on signed types)
     r = rng.fork("extreme")
     cnt = 8000 if thorough else 1500
-    ext = {"i": [-(1 << 31), -(1 << 31) + 1, -1, 0, 1, (1 << 31) - 2, (1 << 31) - 1],
-           "u": [0, 1, 2, (1 << 31) - 1, 1 << 31, (1 << 32) - 2, (1 << 32) - 1]}
     ops = []
     for _ in range(cnt):
-        T = r.choice(["i", "u"])
+        T = r.choice(["i", "u", "i", "u", "l", "m"])
+        U = "u" if T in "iu" else "m"
         n = r.choice([1, 2, 3])
-        pick = lambda: [r.choice(ext[T]) for _ in range(n)]
-        if r.chance(1, 2) or T == "i":
+        pick = lambda: [r.choice(EXT[T]) for _ in range(n)]
+        picku = lambda: [r.choice(EXT[U]) for _ in range(n)]
+        if r.chance(1, 2) or SIGNED[T]:
             ops.append(f"pt {T} {n} {vs(pick())} {vs(pick())} {vs(pick())} {vs(pick())} {vs(pick())}")
         else:
-            k = r.below(3)
+            k = r.below(4)
             if k == 0:
-                ops.append(f"shr u {n} {vs(pick())} {vs(pick())} {vs(pick())}")
+                ops.append(f"shr {U} {n} {vs(picku())} {vs(picku())} {vs(picku())}")
             elif k == 1:
-                ops.append(f"extp u {n} {vs(pick())} {vs(pick())} {vs(pick())}")
+                ops.append(f"extp {U} {n} {vs(picku())} {vs(picku())} {vs(picku())}")
+            elif k == 2:
+                ops.append(f"strel {U} {n} {vs(picku())} {vs(picku())} {vs(picku())}")
             else:
-                ops.append(f"idist u {r.choice(ext['u'])} {r.choice(ext['u'])} {r.choice(ext['u'])} {r.choice(ext['u'])}")
-    # extend-by-point at extreme int coordinates is comparison-only as well
+                ops.append(f"idist {U} {r.choice(EXT[U])} {r.choice(EXT[U])} {r.choice(EXT[U])} {r.choice(EXT[U])}")
+    # extend-by-point at extreme signed coordinates is comparison-only as well
     for _ in range(cnt // 4):
+        T = r.choice(["i", "i", "l"])
         n = r.choice([1, 2, 3])
-        pick = lambda: [r.choice(ext["i"]) for _ in range(n)]
-        ops.append(f"extp i {n} {vs(pick())} {vs(pick())} {vs(pick())}")
-    yield Batch("extreme-coordinates", ops, note="coordinates at the ends of the type's range: contains_point/intersection/extend (int and unsigned), "
-                "shrink/stretch/interval_distance with wrap-around (unsigned)")
+        pick = lambda: [r.choice(EXT[T]) for _ in range(n)]
+        ops.append(f"extp {T} {n} {vs(pick())} {vs(pick())} {vs(pick())}")
+    yield Batch("extreme-coordinates", ops, note="coordinates at the ends of the type's range: contains_point/intersection/extend (all four types), "
+                "shrink/stretch/stretch_relative/interval_distance with wrap-around (unsigned, unsigned long)")
 
 
 MANIFEST = {
-    "level_text": ("Machine-checked proof (Lean 4) over an executable model that mirrors the box headers index by index: for every dimension n "
+    "level_text": ("Machine-checked proof (Lean 4, 103 theorems) over an executable model that mirrors the box headers index by index: for every dimension n "
                    "and all integer coordinates, contains_point is membership in the half-open point set, the intersection's points are exactly "
                    "the common points and it is the null box when intersects is false, intersects <-> common point and contains <-> subset for "
-                   "non-empty boxes, extend_bounding_box is the least box containing both, and size/corner_points/center/shrink/stretch_absolute/"
-                   "constructors/comparison are characterised coordinate-wise (signed: under the no-overflow guard with a separate fault theorem; "
-                   "unsigned: modulo 2^bits). The model is tied to the code by a differential correspondence that is exhaustive over all pairs of "
-                   "1-D and 2-D boxes with corners in [-3,3] (int) / [0,6] (unsigned) and all lattice points, and seeded random in 3-D."),
+                   "non-empty boxes, extend_bounding_box is the least box containing both (also accumulated over any list of boxes or points, in any "
+                   "order), and size/corner_points/center/shrink/stretch_absolute/stretch_relative/structure_cast/constructors/comparison/operator<< "
+                   "are characterised coordinate-wise (signed: under the no-overflow guard with a separate fault theorem; unsigned: modulo 2^bits, "
+                   "including round trips and the strict total order for wrapped sizes); writes through the mutable pos()/max() and all statement "
+                   "sequences over two box objects (aliasing, self-assignment, swap, move) are modelled as a state machine with theorems by induction "
+                   "over the sequence. The model is tied to the code by a differential correspondence for int, unsigned, long, unsigned long and "
+                   "N = 0..4 that is exhaustive over all pairs of 1-D and 2-D boxes with corners in [-3,3] (int) / [0,6] (unsigned) and all lattice "
+                   "points, over all statement sequences of length <= 2 from every small 1-D state, over one axis at a time in 2-4 dimensions, over "
+                   "all 1-D pairs at the ends of each type's range, and seeded random in 3-D / 4-D."),
     "level_note": ("Trusted: Lean kernel + propext/Classical.choice/Quot.sound; the hand-written model's fidelity outside the exercised inputs; "
-                   "harness and digest protocol; C++ integer semantics for int/unsigned as modelled by Ty.norm. No sorry/axiom/native_decide."),
+                   "harness and digest protocol; C++ integer semantics for int/unsigned/long/unsigned long as modelled by Ty.norm / Ty.wrap. "
+                   "No sorry/axiom/native_decide."),
     "technique": "Lean 4 proof over hand-written executable model + exhaustive differential correspondence (ASan/UBSan harness)",
     "design_ref": "DESIGN.md §5 C13",
 }
